@@ -128,6 +128,29 @@ func ops(n int) []op {
 		add("Float32@"+an, func(o *obj) string { return r2(o.regs.Float32(o.start + off)) })
 		add("String(len 2)@"+an, func(o *obj) string { return r2(o.regs.String(o.start+off, 2)) })
 	}
+	// reads that must FAIL (the register after the last one received), once and again: an answer must not appear because
+	// something was read before
+	beyond := func(o *obj) (uint16, bool) {
+		if int(o.start)+n > 65535 {
+			return 0, false
+		}
+		return o.start + uint16(n), true
+	}
+	addB := func(name string, f func(o *obj, a uint16) string) {
+		add(name+"@beyond", func(o *obj) string {
+			a, ok := beyond(o)
+			if !ok {
+				return "n/a"
+			}
+			return f(o, a)
+		})
+	}
+	addB("Bit9", func(o *obj, a uint16) string { return r2(o.regs.Bit(a, 9)) })
+	addB("Bit3", func(o *obj, a uint16) string { return r2(o.regs.Bit(a, 3)) })
+	addB("Uint16", func(o *obj, a uint16) string { return r2(o.regs.Uint16(a)) })
+	addB("Register", func(o *obj, a uint16) string { return r2(o.regs.Register(a)) })
+	addB("Uint8hi", func(o *obj, a uint16) string { return r2(o.regs.Uint8(a, true)) })
+	addB("String(len 2)", func(o *obj, a uint16) string { return r2(o.regs.String(a, 2)) })
 	// a view whose default order is switched, read, and switched back: the answer must not depend on what was read
 	// before the switch (the default NewRegisters documents is big endian, high word first)
 	for _, ord := range []packet.ByteOrder{packet.LittleEndian, packet.BigEndianLowWordFirst, packet.LittleEndianHighWordFirst} {
@@ -422,6 +445,9 @@ func run(tier string, shard, nsh int, res *ev.Result) {
 		panic(err)
 	}
 	thorough := tier == "thorough"
+	if shard == 0 {
+		stringOrderProbe(res) // first thing in the process: see there
+	}
 	ps := payloads()
 	var mu sync.Mutex
 	var tot local
@@ -482,6 +508,10 @@ func run(tier string, shard, nsh int, res *ev.Result) {
 func replay(check string, raw json.RawMessage, res *ev.Result) {
 	var c Case
 	json.Unmarshal(raw, &c)
+	if len(c.History) > 0 && c.History[0] == "string-order-probe" {
+		stringOrderProbe(res) // must be the first thing in the process, as it is here
+		return
+	}
 	if len(c.History) > 0 && strings.Contains(c.History[0], "@") && strings.Contains(c.History[0], "/") || (len(c.History) > 0 && c.Start == 200) {
 		fieldOrder(true, res) // the field-order cases are cheap: re-run them all
 		return
@@ -521,4 +551,39 @@ func main() {
 			cov["expected_states_if_property_holds"] = res.Counters["initial_states"]
 		},
 	})
+}
+
+// stringOrderProbe runs before anything else in the process has decoded a string: for every ordered pair of string
+// lengths 1..8 (both byte orders) the two reads are made, in that order, on a response whose bytes no other part of the
+// check uses, and both results are compared with the reference decoding. What the second read returns must not depend
+// on the first - also not through state that outlives the response (a process-wide cache, possibly one that stops
+// admitting entries after a while, which is why this comes first).
+func stringOrderProbe(res *ev.Result) {
+	k := 0
+	for _, ord := range []packet.ByteOrder{packet.BigEndian, packet.LittleEndian} {
+		so := uint8(spec.OrdBE)
+		if ord == packet.LittleEndian {
+			so = spec.OrdLE
+		}
+		for l1 := 1; l1 <= 8; l1++ {
+			for l2 := 1; l2 <= 8; l2++ {
+				k++
+				pay := make([]byte, 8)
+				for i := range pay {
+					pay[i] = byte(0x80 + (k*7+i*31)%0x7F) // no NUL, unlike any other payload of this check, different for every pair
+				}
+				o := build(pay, 100)
+				for step, l := range []int{l1, l2} {
+					got, err := o.regs.StringWithByteOrder(100, uint8(l), ord)
+					want := spec.Str(pay[:2*spec.StrRegs(l)], l, so)
+					if err != nil || got != want {
+						res.Violate(ev.Violation{Check: "purity", Kind: "result-depends-on-history", Attrs: map[string]any{"victim": "StringWithByteOrder", "after": "StringWithByteOrder", "probe": true},
+							Msg:  fmt.Sprintf("payload %x: reads String(len %d) then String(len %d) with order %d: read %d returned (%q, %v), the registers decode to %q", pay, l1, l2, ord, step+1, got, err, want),
+							Case: Case{Payload: hex.EncodeToString(pay), Start: 100, History: []string{"string-order-probe", fmt.Sprintf("String(len %d, order %d)", l1, ord), fmt.Sprintf("String(len %d, order %d)", l2, ord)}}})
+						break
+					}
+				}
+			}
+		}
+	}
 }
